@@ -195,6 +195,31 @@ fn eval_history(ctx: &Ctx, case: &Case, mode: &str, seq: &[u16]) {
     let Guard::Done(Ok(m)) = guard(|| Sm4CipherMode::new(&key, mk(mode))) else { return };
     ctx.depth(seq.len() as u64);
     for (i, op) in seq.iter().enumerate() {
+        if *op >= 6 {
+            // calls that must fail (15-byte IV; for CBC an empty ciphertext) must leave the object untouched
+            ctx.call();
+            let r = guard(|| if *op == 6 { m.encrypt(&[1, 2, 3], &[0u8; 15]) } else { m.decrypt(&[], &[7u8; 16]) });
+            let must_err = *op == 6 || mode == "cbc";
+            match r {
+                Guard::Done(Err(_)) if must_err => {}
+                Guard::Done(Ok(_)) if !must_err => {}
+                other => {
+                    ctx.violation(&format!("Sm4CipherMode[{}]", mode), "malformed-call-in-sequence-not-handled", format!("seq={:?} -> {}", seq, dbg(&other)), serde_json::to_value(case).unwrap());
+                    return;
+                }
+            }
+            if i + 1 < seq.len() {
+                continue;
+            }
+            // judged last: follow it with one ordinary encryption
+            let (_, data, iv) = seq_op(ctx.seed, mode, 0);
+            let key = h16(STD_KEY);
+            match guard(|| m.encrypt(&data, &iv)) {
+                Guard::Done(Ok(v)) if v == ref_enc(mode, &key, &iv, &data) => ctx.outcome(&format!("ok/history/{}", mode)),
+                other => ctx.violation(&format!("Sm4CipherMode[{}]", mode), "result-depends-on-earlier-calls-on-the-object", format!("seq={:?} -> {}", seq, dbg(&other)), serde_json::to_value(case).unwrap()),
+            }
+            return;
+        }
         let (dec, data, iv) = seq_op(ctx.seed, mode, *op);
         ctx.call();
         let r = guard(|| if dec { m.decrypt(&data, &iv) } else { m.encrypt(&data, &iv) });
@@ -261,6 +286,17 @@ pub fn run(ctx: &Arc<Ctx>) {
             }
         }
     }
+    // every value of the last byte of key and IV (text-like trimming of a trailing newline etc.)
+    for v in 0..=255u8 {
+        let mut k = h16(STD_KEY);
+        k[15] = v;
+        let mut iv = h16(&seed_key);
+        iv[15] = v;
+        for mode in MODES {
+            cases.push(Case::Mode { mode: mode.into(), len: 33, key: hex::encode(k), iv: ivs[1].clone(), content: "seed".into() });
+            cases.push(Case::Mode { mode: mode.into(), len: 33, key: STD_KEY.into(), iv: hex::encode(iv), content: "seed".into() });
+        }
+    }
     for len in 0..=lmax {
         for cl in ["zero", "ff", "seed"] {
             cases.push(Case::CbcCtLen { len, content: cl.into() });
@@ -277,15 +313,15 @@ pub fn run(ctx: &Arc<Ctx>) {
     ctx.sample(serde_json::to_value(&cases[5]).unwrap());
     ctx.sample(serde_json::to_value(&cases[cases.len() - 1]).unwrap());
     run_cases(ctx, &cases, 64, eval);
-    // E1: one mode object, all operation sequences up to depth 3 (thorough 4) over 6 operations
-    // (encrypt / decrypt, three data lengths, two IVs): the mode object keeps no state between calls
+    // E1: one mode object, all operation sequences up to depth 3 (thorough 4) over 8 operations
+    // (encrypt / decrypt, three data lengths, two IVs, two calls that must be refused): the mode object keeps no state between calls
     let depth = ctx.tier.pick(3usize, 4);
     for mode in MODES {
         let c2 = ctx.clone();
         let ms = mode.to_string();
         let model = HistModel {
             inits: vec![vec![]],
-            actions: Box::new(move |h: &[u16]| if h.len() < depth { (0..6).collect() } else { vec![] }),
+            actions: Box::new(move |h: &[u16]| if h.len() < depth { (0..8).collect() } else { vec![] }),
             visit: Arc::new(move |h: &[u16]| {
                 if !h.is_empty() {
                     let c = Case::History { mode: ms.clone(), seq: h.to_vec() };
